@@ -11,7 +11,8 @@ CORR, PROPCHK = 'C12_corr', 'C12_prop'
 THEOREMS = ['C12_kept_column_reflected', 'C12_excluded_column_absent', 'C12_primary_key', 'C12_transaction_column',
             'C12_other_columns_nullable', 'C12_end_column_iff_validity', 'C12_operation_type_column',
             'C12_flag_columns', 'C12_no_flag_columns_without_tracker', 'C12_build_is_the_code',
-            'C12_reflect_column_is_the_code', 'C12_example']
+            'C12_reflect_column_is_the_code', 'C12_example', 'C12_keyless_parent_key_is_transaction_only',
+            'C12_keyless_refuted']
 RULE = ('random model configurations: 1-6 columns with random type (Integer, Unicode, Boolean, DateTime), nullable / unique / '
         'index / autoincrement / default / server_default / onupdate / foreign key / aliased attribute name, 1-2 key '
         'columns, include / exclude subsets, strategy, custom names of the three internal columns (manager- or class-level), '
